@@ -100,10 +100,10 @@ static inline void sk_open(int sk) { g_sk_open[sk] = g_sk_open[sk] + 1; }
 /* std::count(first, first + n, 0) over the out buffer */
 static inline size_t vf_count_zero(struct socks_connection *self, char *first, size_t n)
 {
-  __CPROVER_assert(SPAN_OK(self, first, n), "[C17.bounds] std::count stays inside the buffer");
+  __CPROVER_assert(AT_OUT(self, first, 0) && n <= OUT_SZ, "[C17.bounds] std::count runs over the start of the request buffer and stays inside it");
   size_t c = nondet_size(); __CPROVER_assume(c <= n);
-  /* pointwise: if the byte at ghost index G_i is zero the count is non-zero; if the count is non-zero some byte is zero (not needed) */
-  if (G_i < n && first[G_i] == 0) __CPROVER_assume(c > 0);
+  /* pointwise: if the byte at ghost index G_i (inside the counted range) is zero the count is non-zero */
+  if (G_i < n && self->m_out_buffer[G_i] == 0) __CPROVER_assume(c > 0);
   return c;
 }
 /* std::string(ptr, len): opaque string identified by where it was read from */
@@ -153,4 +153,49 @@ static inline size_t vf_strlen(const char *s) { size_t n = nondet_size(); __CPRO
 /* the string literal "foobar" */
 void *malloc(size_t);
 static inline const char *vf_literal_foobar(void) { char *s = malloc(256); __CPROVER_assume(s != (char *)0); s[0] = 'f'; s[1] = 'o'; s[2] = 'o'; s[3] = 'b'; s[4] = 'a'; s[5] = 'r'; s[6] = 0; return s; }
+#endif
+#ifndef VF_SOCKS_UNIT5_H
+#define VF_SOCKS_UNIT5_H
+extern size_t g_listen_calls;
+/* resolver results: number of entries and the first endpoint */
+typedef struct { size_t n; ep_t front; } iplist2_t;
+#endif
+#ifndef VF_SOCKS_UNIT6_H
+#define VF_SOCKS_UNIT6_H
+/* memset with a small constant length (cbmc 6.11 crashes on the built-in memset into an array member of a 130 kB struct) */
+static inline void vf_memset(char *p, int v, size_t n) { for (size_t k_ = 0; k_ < n; ++k_) p[k_] = (char)v; }
+#endif
+#ifndef VF_SOCKS_UNIT7_H
+#define VF_SOCKS_UNIT7_H
+/* ---- UDP relay ---- */
+/* boost::bimap<address, std::string> m_name_mapping: abstract; lookups return arbitrary results */
+struct nm_right_it { bool end; addr_t second; };
+struct nm_left_it { bool end; str_t second; };
+struct nm_right_it nondet_nm_right_it(void); struct nm_left_it nondet_nm_left_it(void);
+size_t __CPROVER_uninterpreted_str_size(int id);
+static inline size_t vf_str_size(str_t s) { size_t n = __CPROVER_uninterpreted_str_size(s.id); __CPROVER_assume(n <= 255); return n; }   /* host names in the map came from a one-byte length field */
+static inline struct nm_right_it nm_right_find(str_t host) { (void)host; struct nm_right_it it = nondet_nm_right_it(); __CPROVER_assume(BOOL_OK(it.end) && it.second < ((addr_t)1 << 48)); return it; }
+extern bool g_nm_left_found;
+static inline struct nm_left_it nm_left_find(addr_t a) { (void)a; struct nm_left_it it = nondet_nm_left_it(); __CPROVER_assume(BOOL_OK(it.end)); g_nm_left_found = !it.end; return it; }
+static inline void vf_str_copy(str_t s, char *dst) { __CPROVER_havoc_slice(dst, vf_str_size(s)); }
+/* datagrams sent by the relay socket: ghost record of the last send (header part, payload part, destination) */
+extern size_t g_udp_sends; extern struct iobuf g_udp_hdr, g_udp_payload; extern ep_t g_udp_dst; extern char g_udp_hdr_bytes[10];
+#define UDPSEND_GHOST g_nm_left_found, g_udp_sends, g_udp_hdr, g_udp_payload, g_udp_dst, __CPROVER_object_whole(g_udp_hdr_bytes)
+static inline void socks_udp_send(struct socks_connection *self, struct iobuf b, ep_t dst, int *ec)
+{
+  __CPROVER_assert(SPAN_IN(self, b.p, b.n, OFF_UDP, UDP_SZ), "[C17.bounds] the payload handed to send_to lies inside the datagram buffer");
+  g_udp_sends = g_udp_sends + 1; g_udp_hdr.p = (char *)0; g_udp_hdr.n = 0; g_udp_payload = b; g_udp_dst = dst;
+  int e = nondet_int(); __CPROVER_assume(e >= 0); *ec = e;
+}
+static inline void socks_udp_send2(struct socks_connection *self, struct iobuf *vec, size_t hdr_cap, ep_t dst, int *ec)
+{
+  __CPROVER_assert(vec[0].n <= hdr_cap, "[C17.bounds] the header part lies inside the header array");
+  __CPROVER_assert(SPAN_IN(self, vec[1].p, vec[1].n, OFF_UDP, UDP_SZ), "[C17.bounds] the payload handed to send_to lies inside the datagram buffer");
+  g_udp_sends = g_udp_sends + 1; g_udp_hdr = vec[0]; g_udp_payload = vec[1]; g_udp_dst = dst;
+  if (vec[0].n == 10) { for (int k_ = 0; k_ < 10; ++k_) g_udp_hdr_bytes[k_] = vec[0].p[k_]; }
+  int e = nondet_int(); __CPROVER_assume(e >= 0); *ec = e;
+}
+static inline void vf_vector_from(struct socks_connection *self, char *first, size_t n)
+{ __CPROVER_assert(SPAN_IN(self, first, n, OFF_UDP, UDP_SZ), "[C17.bounds] the range copied into the forward buffer lies inside the datagram buffer"); }
+#define ADDR_V4_UINT_CHK(a) ((uint32_t)((a) & 0xffffffffu))
 #endif
